@@ -79,12 +79,15 @@ def to_signed(v, n):
 
 
 class IV:
-    __slots__ = ("bits", "c", "e", "_u", "_s", "pref", "lazy", "tz", "ubits")
+    __slots__ = ("bits", "c", "e", "_u", "_s", "pref", "lazy", "tz", "ubits", "srng", "urng", "fac")
 
     def __init__(self, bits, c=None, e=None, u=None, s=None, pref="u", lazy=None):
         self.lazy = lazy
         self.tz = 0          # known trailing zero bits
         self.ubits = bits    # value (unsigned reading) is known to be < 2^ubits
+        self.srng = None     # known interval of the signed reading (INT mode, python ints)
+        self.urng = None     # known interval of the unsigned reading
+        self.fac = None      # (base term, k): signed reading == base * 2^k exactly (INT mode)
         self.bits = bits
         self.c = None if c is None else c & mask(bits)
         self.e = e
@@ -405,8 +408,12 @@ class IntDom:
     def var(self, bits, name, signed=False):
         v = z3.Int(name)
         if signed:
-            return IV(bits, s=v, pref="s")
-        return IV(bits, u=v, pref="u")
+            r = IV(bits, s=v, pref="s")
+            r.srng = (-(1 << (bits - 1)), (1 << (bits - 1)) - 1)
+            return r
+        r = IV(bits, u=v, pref="u")
+        r.urng = (0, (1 << bits) - 1)
+        return r
 
     def fresh(self, bits, hint="undef"):
         self.fresh_ctr += 1
@@ -476,12 +483,67 @@ class IntDom:
             return "s" if (a.pref == "s" and b.pref == "s") else ("s" if a.pref == "s" or b.pref == "s" else "u")
         return a.pref if a.c is None else b.pref
 
+    @staticmethod
+    def _srng(a):
+        if a.c is not None:
+            return (a.sc, a.sc)
+        if a.srng is not None:
+            return a.srng
+        if a.urng is not None and a.urng[1] < (1 << (a.bits - 1)):
+            return a.urng
+        return None
+
+    @staticmethod
+    def _urng(a):
+        if a.c is not None:
+            return (a.c, a.c)
+        if a.urng is not None:
+            return a.urng
+        if a.srng is not None and a.srng[0] >= 0:
+            return a.srng
+        return None
+
+    def _interval_op(self, op, a, b):
+        """if interval arithmetic shows the exact result cannot wrap, return the unwrapped IV"""
+        n = a.bits
+        f = {"add": lambda x, y: [x[0] + y[0], x[1] + y[1]], "sub": lambda x, y: [x[0] - y[1], x[1] - y[0]],
+             "mul": lambda x, y: [min(x[0] * y[0], x[0] * y[1], x[1] * y[0], x[1] * y[1]),
+                                  max(x[0] * y[0], x[0] * y[1], x[1] * y[0], x[1] * y[1])]}[op]
+        sa, sb = self._srng(a), self._srng(b)
+        if sa is not None and sb is not None:
+            r = f(sa, sb)
+            if -(1 << (n - 1)) <= r[0] and r[1] < (1 << (n - 1)):
+                x, y = self.S(a), self.S(b)
+                e = x + y if op == "add" else (x - y if op == "sub" else x * y)
+                v = self.mk_s(n, e)
+                v.srng = (r[0], r[1])
+                if op == "mul":
+                    if a.fac is not None:
+                        v.fac = (a.fac[0] * y, a.fac[1])
+                    elif b.fac is not None:
+                        v.fac = (x * b.fac[0], b.fac[1])
+                return v
+        ua, ub = self._urng(a), self._urng(b)
+        if ua is not None and ub is not None:
+            r = f(ua, ub)
+            if 0 <= r[0] and r[1] < (1 << n):
+                x, y = self.U(a), self.U(b)
+                e = x + y if op == "add" else (x - y if op == "sub" else x * y)
+                v = self.mk_u(n, e)
+                v.urng = (r[0], r[1])
+                return v
+        return None
+
     def binop(self, op, a, b):
         n = a.bits
         if a.c is not None and b.c is not None:
             r = conc_binop(op, a.c, b.c, n)
             if r is not None:
                 return IV(n, c=r)
+        if op in ("add", "sub", "mul") and a.lazy is None and b.lazy is None:
+            r = self._interval_op(op, a, b)
+            if r is not None:
+                return r
         p = self._pref(a, b)
         lo, hi = -(1 << (n - 1)), (1 << (n - 1)) - 1
         if op in ("add", "sub"):
@@ -585,6 +647,13 @@ class IntDom:
         if k == 0:
             return a
         if op == "shl":
+            sr = self._srng(a)
+            if sr is not None and -(1 << (n - 1)) <= sr[0] * (1 << k) and sr[1] * (1 << k) < (1 << (n - 1)):
+                r = self.mk_s(n, self.S(a) * (1 << k))
+                r.srng = (sr[0] * (1 << k), sr[1] * (1 << k))
+                r.fac = (self.S(a), k)
+                r.tz = a.tz + k
+                return r
             if a.ubits + k <= n:
                 r = self.mk_u(n, self.U(a) * (1 << k))  # cannot wrap
                 r.ubits = a.ubits + k
@@ -598,7 +667,19 @@ class IntDom:
             r = self.mk_u(n, self.U(a) / (1 << k))
             r.ubits = max(0, min(a.ubits, n) - k)
             return r
-        return self.mk_s(n, self.S(a) / (1 << k))  # floor division by a positive constant
+        if a.fac is not None and a.fac[1] >= k:
+            r = self.mk_s(n, a.fac[0] * (1 << (a.fac[1] - k)) if a.fac[1] > k else a.fac[0])
+            sr = self._srng(a)
+            if sr is not None:
+                r.srng = (sr[0] >> k, sr[1] >> k)
+            if a.fac[1] > k:
+                r.fac = (a.fac[0], a.fac[1] - k)
+            return r
+        r = self.mk_s(n, self.S(a) / (1 << k))  # floor division by a positive constant
+        sr = self._srng(a)
+        if sr is not None:
+            r.srng = (sr[0] >> k, sr[1] >> k)
+        return r
 
     def icmp(self, pred, a, b):
         n = a.bits
@@ -631,16 +712,30 @@ class IntDom:
             return IV(bits, c=a.c)
         r = IV(bits, u=self.U(a), s=self.U(a), pref="u")
         r.ubits = min(a.bits, a.ubits)
+        r.urng = self._urng(a) or (0, (1 << a.bits) - 1)
+        r.srng = r.urng
         return r
 
     def sext(self, a, bits):
         if a.c is not None:
             return IV(bits, c=a.sc)
-        return self.mk_s(bits, self.S(a))
+        r = self.mk_s(bits, self.S(a))
+        r.srng = self._srng(a) or (-(1 << (a.bits - 1)), (1 << (a.bits - 1)) - 1)
+        return r
 
     def trunc(self, a, bits):
         if a.c is not None:
             return IV(bits, c=a.c)
+        sr = self._srng(a)
+        if sr is not None and -(1 << (bits - 1)) <= sr[0] and sr[1] < (1 << (bits - 1)):
+            r = self.mk_s(bits, self.S(a))
+            r.srng = sr
+            return r
+        ur = self._urng(a)
+        if ur is not None and ur[1] < (1 << bits):
+            r = self.mk_u(bits, self.U(a))
+            r.urng = ur
+            return r
         if a.pref == "s":
             return self.mk_s(bits, self.wrap_s(self.S(a), bits))
         return self.mk_u(bits, self.wrap_u(self.U(a), bits))
